@@ -610,6 +610,9 @@ func (e *Exec) renderConcrete(v Value, cache map[*Term]*Term) string {
 
 // runPath executes the harness once, following the decision prefix in e.trail.
 func (e *Exec) runPath(fn *ssa.Function) (end pathEnd) {
+	if os.Getenv("GOSYM_DEBUG") != "" {
+		opaqueWhere = e.where // diagnosis only (racy across parallel jobs)
+	}
 	e.resetPath()
 	e.covers = map[string]bool{}
 	defer func() {
